@@ -10,7 +10,8 @@
      - a Release store copies the storing thread's knowledge onto the location (each cursor has one writer);
      - an Acquire load joins the location's knowledge into the loading thread's.
    Cursors are read ONE AT A TIME here (no atomic-snapshot abstraction): the knowledge a thread has is exactly
-   what the loads it really performed gave it.
+   what the loads it really performed gave it.  Loads may be STALE: a load returns ANY store ever made to the
+   cursor (value and attached knowledge), not necessarily the latest - a superset of what C11 coherence allows.
 
    A slot access is RACE FREE when the accessing thread's knowledge covers every earlier conflicting access:
      handler h touching sequence i:  the fill of i, every access of earlier-stage handlers to i, and every access
@@ -53,8 +54,8 @@ Section HB.
     (* happens-before knowledge *)
     kprod : know;                 (* the producer thread *)
     khand : nat -> know;          (* handler threads *)
-    lcur : know;                  (* attached to the producer cursor by its last Release store *)
-    lh : nat -> know              (* attached to handler cursors *)
+    hist_c : list (nat * know);          (* every Release store made to the producer cursor: value, knowledge *)
+    hist_h : nat -> list (nat * know)    (* ... to each handler cursor *)
   }.
 
   Definition upd {A} (f : nat -> A) (k : nat) (v : A) : nat -> A := fun x => if x =? k then v else f x.
@@ -64,7 +65,7 @@ Section HB.
   Definition stage_ids (k : nat) : list nat := filter (fun h => stage h =? k) (seq 0 H).
 
   Definition init : st :=
-    mkSt 0 (fun _ => 0) 0 0 PIdle (fun _ => HIdle) 0 (fun _ => 0) k0 (fun _ => k0) k0 (fun _ => k0).
+    mkSt 0 (fun _ => 0) 0 0 PIdle (fun _ => HIdle) 0 (fun _ => 0) k0 (fun _ => k0) [(0, k0)] (fun _ => [(0, k0)]).
 
   (* own progress is always known *)
   Definition with_own_fill (k : know) (n : nat) : know := mkK (Nat.max (kP k) n) (kH k).
@@ -75,60 +76,60 @@ Section HB.
   | p_begin_cached s c :
       pp s = PIdle -> 1 <= c -> pnext s + c - 1 <= pcached s + N ->           (* cached minimum suffices: no load *)
       step s (mkSt (cursor s) (hcur s) (pnext s) (pcached s) (PFill (pnext s) (pnext s + c - 1) (pcached s)) (hp s)
-                   (fill_ptr s) (done s) (kprod s) (khand s) (lcur s) (lh s))
+                   (fill_ptr s) (done s) (kprod s) (khand s) (hist_c s) (hist_h s))
   | p_begin_gate s c :
       pp s = PIdle -> 1 <= c -> pcached s + N < pnext s + c - 1 ->
       step s (mkSt (cursor s) (hcur s) (pnext s) (pcached s) (PGate (pnext s + c - 1) (stage_ids last) None) (hp s)
-                   (fill_ptr s) (done s) (kprod s) (khand s) (lcur s) (lh s))
-  | p_read s e l rest m :                                                       (* Acquire load of one gating cursor *)
-      pp s = PGate e (l :: rest) m ->
-      step s (mkSt (cursor s) (hcur s) (pnext s) (pcached s) (PGate e rest (Some (omin m (hcur s l)))) (hp s)
-                   (fill_ptr s) (done s) (kjoin (kprod s) (lh s l)) (khand s) (lcur s) (lh s))
+                   (fill_ptr s) (done s) (kprod s) (khand s) (hist_c s) (hist_h s))
+  | p_read s e l rest m v k :                                                   (* Acquire load of one gating cursor *)
+      pp s = PGate e (l :: rest) m -> In (v, k) (hist_h s l) ->
+      step s (mkSt (cursor s) (hcur s) (pnext s) (pcached s) (PGate e rest (Some (omin m v))) (hp s)
+                   (fill_ptr s) (done s) (kjoin (kprod s) k) (khand s) (hist_c s) (hist_h s))
   | p_gate_ok s e m :
       pp s = PGate e [] (Some m) -> e <= m + N ->
       step s (mkSt (cursor s) (hcur s) (pnext s) (pcached s) (PFill (pnext s) e m) (hp s)
-                   (fill_ptr s) (done s) (kprod s) (khand s) (lcur s) (lh s))
+                   (fill_ptr s) (done s) (kprod s) (khand s) (hist_c s) (hist_h s))
   | p_gate_retry s e m :
       pp s = PGate e [] (Some m) -> m + N < e ->
       step s (mkSt (cursor s) (hcur s) (pnext s) (pcached s) (PGate e (stage_ids last) None) (hp s)
-                   (fill_ptr s) (done s) (kprod s) (khand s) (lcur s) (lh s))
+                   (fill_ptr s) (done s) (kprod s) (khand s) (hist_c s) (hist_h s))
   | p_fill s q e m :                                                            (* slot access *)
       pp s = PFill q e m ->
       step s (mkSt (cursor s) (hcur s) (pnext s) (pcached s) (if q =? e then PPub e m else PFill (S q) e m) (hp s)
-                   (S q) (done s) (with_own_fill (kprod s) (S q)) (khand s) (lcur s) (lh s))
+                   (S q) (done s) (with_own_fill (kprod s) (S q)) (khand s) (hist_c s) (hist_h s))
   | p_publish s e m :                                                           (* Release store of the cursor *)
       pp s = PPub e m ->
-      step s (mkSt e (hcur s) (S e) m PIdle (hp s) (fill_ptr s) (done s) (kprod s) (khand s) (kprod s) (lh s))
+      step s (mkSt e (hcur s) (S e) m PIdle (hp s) (fill_ptr s) (done s) (kprod s) (khand s) ((e, kprod s) :: hist_c s) (hist_h s))
   (* ---- handlers ---- *)
   | h_begin s h :
       h < H -> hp s h = HIdle ->
       step s (mkSt (cursor s) (hcur s) (pnext s) (pcached s) (pp s)
                    (upd (hp s) h (if stage h =? 0 then HReadP (hcur s h + 1) else HRead (hcur s h + 1) (stage_ids (stage h - 1)) None))
-                   (fill_ptr s) (done s) (kprod s) (khand s) (lcur s) (lh s))
-  | h_read_p s h next :                                                         (* Acquire load of the producer cursor *)
-      h < H -> hp s h = HReadP next ->
+                   (fill_ptr s) (done s) (kprod s) (khand s) (hist_c s) (hist_h s))
+  | h_read_p s h next v k :                                                     (* Acquire load of the producer cursor *)
+      h < H -> hp s h = HReadP next -> In (v, k) (hist_c s) ->
       step s (mkSt (cursor s) (hcur s) (pnext s) (pcached s) (pp s)
-                   (upd (hp s) h (if next <=? cursor s then HBatch next (cursor s) else HIdle))
-                   (fill_ptr s) (done s) (kprod s) (upd (khand s) h (kjoin (khand s h) (lcur s))) (lcur s) (lh s))
-  | h_read s h next d rest m :                                                  (* Acquire load of one dependency cursor *)
-      h < H -> hp s h = HRead next (d :: rest) m ->
+                   (upd (hp s) h (if next <=? v then HBatch next v else HIdle))
+                   (fill_ptr s) (done s) (kprod s) (upd (khand s) h (kjoin (khand s h) k)) (hist_c s) (hist_h s))
+  | h_read s h next d rest m v k :                                              (* Acquire load of one dependency cursor *)
+      h < H -> hp s h = HRead next (d :: rest) m -> In (v, k) (hist_h s d) ->
       step s (mkSt (cursor s) (hcur s) (pnext s) (pcached s) (pp s)
-                   (upd (hp s) h (HRead next rest (Some (omin m (hcur s d)))))
-                   (fill_ptr s) (done s) (kprod s) (upd (khand s) h (kjoin (khand s h) (lh s d))) (lcur s) (lh s))
+                   (upd (hp s) h (HRead next rest (Some (omin m v))))
+                   (fill_ptr s) (done s) (kprod s) (upd (khand s) h (kjoin (khand s h) k)) (hist_c s) (hist_h s))
   | h_read_done s h next m :
       h < H -> hp s h = HRead next [] (Some m) ->
       step s (mkSt (cursor s) (hcur s) (pnext s) (pcached s) (pp s)
                    (upd (hp s) h (if next <=? m then HBatch next m else HIdle))
-                   (fill_ptr s) (done s) (kprod s) (khand s) (lcur s) (lh s))
+                   (fill_ptr s) (done s) (kprod s) (khand s) (hist_c s) (hist_h s))
   | h_handle s h i a :                                                          (* slot access + handler call *)
       h < H -> hp s h = HBatch i a ->
       step s (mkSt (cursor s) (hcur s) (pnext s) (pcached s) (pp s)
                    (upd (hp s) h (if i =? a then HStore a else HBatch (S i) a))
-                   (fill_ptr s) (upd (done s) h i) (kprod s) (upd (khand s) h (with_own_done (khand s h) h i)) (lcur s) (lh s))
+                   (fill_ptr s) (upd (done s) h i) (kprod s) (upd (khand s) h (with_own_done (khand s h) h i)) (hist_c s) (hist_h s))
   | h_store s h a :                                                             (* Release store of the own cursor *)
       h < H -> hp s h = HStore a ->
       step s (mkSt (cursor s) (upd (hcur s) h a) (pnext s) (pcached s) (pp s) (upd (hp s) h HIdle)
-                   (fill_ptr s) (done s) (kprod s) (khand s) (lcur s) (upd (lh s) h (khand s h))).
+                   (fill_ptr s) (done s) (kprod s) (khand s) (hist_c s) (upd (hist_h s) h ((a, khand s h) :: hist_h s h))).
 
   Inductive reachable : st -> Prop :=
   | reach_init : reachable init
@@ -220,13 +221,16 @@ Section HB.
     end.
 
   Definition Inv (s : st) : Prop :=
-    prod_inv s /\ coversL (lcur s) (cursor s) /\
-    (forall h, h < H -> coversH (lh s h) h (hcur s h)) /\
+    prod_inv s /\ (forall v k, In (v, k) (hist_c s) -> coversL k v) /\
+    (forall h, h < H -> forall v k, In (v, k) (hist_h s h) -> coversH k h v) /\
     (forall h, h < H -> hand_inv s h).
 
   Lemma Inv_init : Inv init.
   Proof.
-    unfold Inv, init, prod_inv, all_ge, coversL, coversH, covers, hand_inv; cbn. repeat split; cbn; intros; try lia.
+    unfold Inv, init, prod_inv, all_ge, coversL, coversH, covers, hand_inv; cbn.
+    split; [split; [intros; lia | exact I]|]. split; [intros v k [E|[]]; inversion E; subst; cbn; split; intros; lia|].
+    split; [intros h Hh v k [E|[]]; inversion E; subst; cbn; repeat split; intros; lia|].
+    intros h Hh. split; [lia | exact I].
   Qed.
 
   Lemma all_ge_mono k k' m : kle k k' -> all_ge k m -> all_ge k' m.
@@ -240,9 +244,9 @@ Section HB.
   Theorem Inv_step s s' : Inv s -> step s s' -> Inv s'.
   Proof.
     intros (HP & HL & HLh & HHd) Hs.
-    destruct Hs as [s c Hpp Hc Hcap | s c Hpp Hc Hcap | s e l rest m Hpp | s e m Hpp Hle | s e m Hpp Hlt | s q e m Hpp | s e m Hpp
-                    | s h Hh Hhp | s h next Hh Hhp | s h next d rest m Hh Hhp | s h next m Hh Hhp | s h i a Hh Hhp | s h a Hh Hhp];
-      unfold Inv; cbn [cursor hcur pnext pcached pp hp fill_ptr done kprod khand lcur lh].
+    destruct Hs as [s c Hpp Hc Hcap | s c Hpp Hc Hcap | s e l rest m v k Hpp Hvk | s e m Hpp Hle | s e m Hpp Hlt | s q e m Hpp | s e m Hpp
+                    | s h Hh Hhp | s h next v k Hh Hhp Hvk | s h next d rest m v k Hh Hhp Hvk | s h next m Hh Hhp | s h i a Hh Hhp | s h a Hh Hhp];
+      unfold Inv; cbn [cursor hcur pnext pcached pp hp fill_ptr done kprod khand hist_c hist_h].
     - (* p_begin_cached *)
       destruct HP as [G _]. split; [|split; [exact HL | split; [exact HLh|]]].
       + unfold prod_inv; cbn. split; [exact G|]. split; [lia|]. split; [lia | exact G].
@@ -257,8 +261,8 @@ Section HB.
       + unfold prod_inv; cbn [pcached kprod pp pnext]. split; [eapply all_ge_mono; [apply kle_join_l | exact G]|].
         destruct P as (Pe & Pin & Pm). split; [exact Pe|]. split; [intros x Hx; apply Pin; right; exact Hx|].
         assert (Hl : l < H /\ stage l = last) by (apply In_stage_ids, Pin; left; reflexivity). destruct Hl as [Hl Hsl].
-        destruct (HLh l Hl) as [(C1 & C2 & C3) Cown].
-        assert (Hmin : omin m (hcur s l) <= hcur s l) by (destruct m; cbn; lia).
+        destruct (HLh l Hl v k Hvk) as [(C1 & C2 & C3) Cown].
+        assert (Hmin : omin m v <= v) by (destruct m; cbn; lia).
         split.
         * intros g Hg Hsg. cbn. destruct m as [p|]; cbn.
           -- destruct Pm as [G1 _]. specialize (G1 g Hg Hsg). lia.
@@ -291,7 +295,8 @@ Section HB.
       destruct HP as [G P]. rewrite Hpp in P. destruct P as (Q1 & Q2 & Q3).
       split; [|split; [|split; [exact HLh|]]].
       + unfold prod_inv; cbn. split; [exact Q3 | exact I].
-      + split; [intros _; lia|]. intros g Hg. specialize (Q3 g Hg). lia.
+      + intros v k [E|Hold]; [inversion E; subst|apply HL; exact Hold].
+        split; [intros _; lia|]. intros g Hg. specialize (Q3 g Hg). lia.
       + intros h Hh. apply (hand_inv_frame s); auto.
     - (* h_begin *)
       split; [exact HP | split; [exact HL | split; [exact HLh|]]].
@@ -304,8 +309,8 @@ Section HB.
       intros g Hg. destruct (Nat.eq_dec g h) as [->|Hne].
       + destruct (HHd h Hh) as [D0 D1]. rewrite Hhp in D1. unfold hand_inv; cbn [hp done khand]. rewrite !upd_same.
         split; [cbn; lia|].
-        destruct (Nat.leb_spec next (cursor s)) as [Hle|Hgt]; [|exact I].
-        split; [exact Hle|]. destruct HL as [L1 L2]. split; [|split].
+        destruct (Nat.leb_spec next v) as [Hle|Hgt]; [|exact I].
+        split; [exact Hle|]. destruct (HL v k Hvk) as [L1 L2]. split; [|split].
         * intros Ha. specialize (L1 Ha). cbn. lia.
         * intros g' Hg' Hs. lia.
         * intros g' Hg'. specialize (L2 g' Hg'). cbn. lia.
@@ -317,10 +322,10 @@ Section HB.
         unfold hand_inv; cbn [hp done khand]. rewrite !upd_same. split; [cbn; lia|]. split; [exact Hst|].
         split; [intros x Hx; apply Pin; right; exact Hx|].
         assert (Hd : d < H /\ stage d = stage h - 1) by (apply In_stage_ids, Pin; left; reflexivity). destruct Hd as [Hd Hsd].
-        destruct (HLh d Hd) as [(C1 & C2 & C3) Cown].
-        assert (Hmin : omin m (hcur s d) <= hcur s d) by (destruct m; cbn; lia).
+        destruct (HLh d Hd v k Hvk) as [(C1 & C2 & C3) Cown].
+        assert (Hmin : omin m v <= v) by (destruct m; cbn; lia).
         split; [|split; [|split]].
-        * intros H1. cbn. assert (1 <= hcur s d) by lia. specialize (C1 H0). lia.
+        * intros H1. cbn. assert (1 <= v) by lia. specialize (C1 H0). lia.
         * intros g' Hg' Hs. cbn. specialize (C2 g' Hg' ltac:(lia)). lia.
         * intros g' Hg'. destruct (Nat.eq_dec g' d) as [->|Hne]; [right; cbn; lia|].
           destruct m as [p|]; cbn.
@@ -351,7 +356,7 @@ Section HB.
       destruct (HHd h Hh) as [D0 D1]. rewrite Hhp in D1. destruct D1 as [Hd C].
       split; [exact HP | split; [exact HL | split]].
       + intros g Hg. destruct (Nat.eq_dec g h) as [->|Hne].
-        * rewrite !upd_same. split; [exact C | lia].
+        * rewrite !upd_same. intros v k [E|Hold]; [inversion E; subst; split; [exact C | lia] | apply HLh; assumption].
         * rewrite !upd_other by exact Hne. apply HLh, Hg.
       + intros g Hg. destruct (Nat.eq_dec g h) as [->|Hne].
         * unfold hand_inv; cbn [hp done khand]. rewrite upd_same. split; [exact D0 | exact I].
@@ -453,11 +458,34 @@ Section HB.
   Lemma upd_le (f : nat -> nat) h a : f h <= a -> forall g, f g <= upd f h a g.
   Proof. intros Hle g. unfold upd. destruct (Nat.eqb_spec g h); subst; lia. Qed.
 
-  Theorem J_step s s' : J s -> step s s' -> J s'.
+  (* a stale load still returns a value some store really wrote: never above the cursor's current value *)
+  Definition JB (s : st) : Prop :=
+    (forall v k, In (v, k) (hist_c s) -> v <= cursor s) /\
+    (forall h v k, In (v, k) (hist_h s h) -> v <= hcur s h).
+
+  Lemma JB_init : JB init.
+  Proof. split; cbn; [intros v k [E|[]] | intros h v k [E|[]]]; inversion E; lia. Qed.
+
+  Theorem JB_step s s' : J s -> JB s -> step s s' -> JB s'.
   Proof.
-    intros [JP JH] Hs.
-    destruct Hs as [s c Hpp Hc Hcap | s c Hpp Hc Hcap | s e l rest m Hpp | s e m Hpp Hle | s e m Hpp Hlt | s q e m Hpp | s e m Hpp
-                    | s h Hh Hhp | s h next Hh Hhp | s h next d rest m Hh Hhp | s h next m Hh Hhp | s h i a Hh Hhp | s h a Hh Hhp];
+    intros [JP JH] [B1 B2] Hs.
+    destruct Hs as [s c Hpp Hc Hcap | s c Hpp Hc Hcap | s e l rest m v k Hpp Hvk | s e m Hpp Hle | s e m Hpp Hlt | s q e m Hpp | s e m Hpp
+                    | s h Hh Hhp | s h next v k Hh Hhp Hvk | s h next d rest m v k Hh Hhp Hvk | s h next m Hh Hhp | s h i a Hh Hhp | s h a Hh Hhp];
+      unfold JB; cbn [cursor hcur hist_c hist_h]; try (split; assumption).
+    - (* p_publish *)
+      split; [|exact B2]. destruct JP as (A & _ & _ & _ & E). rewrite Hpp in E. destruct E as (_ & E2 & _).
+      intros v k [X|X]; [inversion X; lia | specialize (B1 v k X); lia].
+    - (* h_store *)
+      split; [exact B1|]. destruct (JH h Hh) as (A & _ & _ & D). rewrite Hhp in D.
+      intros g v k. unfold upd. destruct (Nat.eqb_spec g h) as [->|Hne]; [|apply B2].
+      intros [X|X]; [inversion X; lia | specialize (B2 h v k X); lia].
+  Qed.
+
+  Theorem J_step s s' : JB s -> J s -> step s s' -> J s'.
+  Proof.
+    intros [B1 B2] [JP JH] Hs.
+    destruct Hs as [s c Hpp Hc Hcap | s c Hpp Hc Hcap | s e l rest m v k Hpp Hvk | s e m Hpp Hle | s e m Hpp Hlt | s q e m Hpp | s e m Hpp
+                    | s h Hh Hhp | s h next v k Hh Hhp Hvk | s h next d rest m v k Hh Hhp Hvk | s h next m Hh Hhp | s h i a Hh Hhp | s h a Hh Hhp];
       unfold J; cbn [cursor hcur pnext pcached pp hp fill_ptr done].
     - (* p_begin_cached *)
       split; [|exact JH]. destruct JP as (A & B & C & D & E). rewrite Hpp in E. unfold pJ.
@@ -467,7 +495,8 @@ Section HB.
       repeat (split; [assumption|]). repeat split; try lia.
     - (* p_read *)
       split; [|exact JH]. destruct JP as (A & B & C & D & E). rewrite Hpp in E. destruct E as (E1 & E2 & E3). unfold pJ.
-      repeat (split; [assumption|]). intros l' Hl' El'. destruct (Nat.eq_dec l' l) as [->|Hne]; [right; destruct m; cbn; lia|].
+      repeat (split; [assumption|]). pose proof (B2 l v k Hvk) as Hv.
+      intros l' Hl' El'. destruct (Nat.eq_dec l' l) as [->|Hne]; [right; destruct m; cbn; lia|].
       destruct m as [p|]; cbn.
       + destruct (E3 l' Hl' El') as [[X|X]|X]; [congruence | left; exact X | right; lia].
       + assert (Hin : In l' (stage_ids last)) by (apply In_stage_ids; auto). rewrite <- E3 in Hin.
@@ -495,11 +524,13 @@ Section HB.
     - (* h_read_p *)
       split; [exact JP|]. intros g Hg. destruct (Nat.eq_dec g h) as [->|Hne]; [|rewrite upd_other by exact Hne; apply JH; exact Hg].
       rewrite upd_same. destruct (JH h Hh) as (A & B & C & D). rewrite Hhp in D. destruct D as (D1 & D2 & D3). unfold hJ.
-      repeat (split; [assumption|]). destruct (Nat.leb_spec next (cursor s)) as [L|L]; [|exact D2].
+      pose proof (B1 v k Hvk) as Hv.
+      repeat (split; [assumption|]). destruct (Nat.leb_spec next v) as [L|L]; [|exact D2].
       repeat split; try lia.
     - (* h_read *)
       split; [exact JP|]. intros g Hg. destruct (Nat.eq_dec g h) as [->|Hne]; [|rewrite upd_other by exact Hne; apply JH; exact Hg].
       rewrite upd_same. destruct (JH h Hh) as (A & B & C & D). rewrite Hhp in D. destruct D as (D1 & D2 & D3 & D4). unfold hJ.
+      pose proof (B2 d v k Hvk) as Hv.
       repeat (split; [assumption|]). intros d' Hd' E'. destruct (Nat.eq_dec d' d) as [->|Hne]; [right; destruct m; cbn; lia|].
       destruct m as [p|]; cbn.
       + destruct (D4 d' Hd' E') as [[X|X]|X]; [congruence | left; exact X | right; lia].
@@ -525,8 +556,14 @@ Section HB.
       + rewrite upd_other by exact Hne. eapply hJ_mono; [reflexivity | exact Hmono | apply upd_other; exact Hne | apply JH; exact Hg].
   Qed.
 
+  Theorem reachable_JJB s : reachable s -> J s /\ JB s.
+  Proof.
+    induction 1 as [|s s' _ [IH1 IH2] Hs]; [split; [apply J_init | apply JB_init]|].
+    split; [eapply J_step; eauto | eapply JB_step; eauto].
+  Qed.
+
   Theorem reachable_J s : reachable s -> J s.
-  Proof. induction 1 as [|s s' _ IH Hs]; [apply J_init | eapply J_step; eauto]. Qed.
+  Proof. intros HR. apply reachable_JJB, HR. Qed.
   (* ---------- chains through the stages ------------------------------------------------------------------- *)
   Lemma done_le_cursor s : J s -> forall g, g < H -> done s g <= cursor s.
   Proof.
@@ -637,6 +674,6 @@ Proof.
     + cbn. eapply p_fill; cbn; reflexivity.
     + cbn. eapply p_publish; cbn; reflexivity.
     + cbn. apply h_begin with (h := 0); cbn; [lia | reflexivity].
-    + cbn. eapply h_read_p with (h := 0); cbn; [lia | reflexivity].
+    + cbn. eapply h_read_p with (h := 0) (v := 1); cbn; [lia | reflexivity | left; reflexivity].
   - cbn. reflexivity.
 Qed.
